@@ -46,8 +46,11 @@ func Num(t *rapid.T, label string, o NumOpts) string {
 		return Pick(t, label, boundary...)
 	case k < 82:
 		return strconv.Itoa(rapid.IntRange(0, 1<<31-1).Draw(t, label))
-	case k < 90 && o.LeadingZeros:
+	case k < 88 && o.LeadingZeros:
 		return Pick(t, label+"Z", "0", "00", "000") + Pick(t, label, small...)
+	case k < 90 && o.LeadingZeros:
+		// long zero-padded runs and the largest 64-bit values (slow paths of parsers that special-case length)
+		return Pick(t, label, "000000000000000000000007", "00000000000000000001", "9223372036854775807", "0000000000000000000000010", "999999999999999999")
 	case k < 96 && o.Big:
 		return Pick(t, label, bigRuns...)
 	default:
